@@ -105,7 +105,7 @@ def build_harness():
 # ---------------------------------------------------------------- running histories
 TIERS = {
     # histories, operations per history
-    "quick": dict(n=320, ops=50),
+    "quick": dict(n=1600, ops=50),
     "thorough": dict(n=4800, ops=60),
 }
 
